@@ -13,6 +13,13 @@ class Other:
     pass
 
 
+class CallableInj(Inj):
+    """an injectable object that happens to be callable (a strategy object, a clock, ...)"""
+
+    def __call__(self, *a):
+        return 42
+
+
 class Probe:
     """filled by the lab for the running case"""
 
